@@ -119,3 +119,152 @@ Proof.
   exists f, Hc, pairs. unfold canonicalise_nauty. rewrite <- Eg.
   split; [exact Hinj|]. split; [exact E|]. split; [exact EH|exact Iso].
 Qed.
+
+(* ------------------------------------------------------------------ 3. the validator *)
+Theorem validator_exact (G1 H1 G2 H2 : mgraph) : wf G2 -> wf H2 ->
+  (smiles_check_its G1 H1 G2 H2 = true <-> its_isomorphic (its_construct G1 H1) (its_construct G2 H2)) /\
+  (smiles_check_rc G1 H1 G2 H2 = true <->
+     its_isomorphic (get_rc (its_construct G1 H1)) (get_rc (its_construct G2 H2))).
+Proof.
+  intros W1 W2. split.
+  - unfold smiles_check_its. apply is_isomorphic_iff. apply its_nodup; auto.
+  - unfold smiles_check_rc. apply is_isomorphic_iff. destruct (rc_wf _ (its_wf G2 H2 W1 W2)) as (A & _). exact A.
+Qed.
+
+(** every renumbering is accepted.  ITS method: also when the renumbered graphs list their atoms in another order and
+    carry the new numbers in their atom_map attribute (what parsing the renumbered string produces). *)
+Theorem validator_renumbering (f : N -> N) (G H : mgraph) : (forall a b, f a = f b -> a = b) -> wf G -> wf H ->
+  smiles_check_its (relabel f G) (relabel f H) G H = true /\
+  smiles_check_rc (relabel f G) (relabel f H) G H = true /\
+  (forall G' H', relabelled_by f G G' -> relabelled_by f H H' -> smiles_check_its (set_amap G') (set_amap H') G H = true).
+Proof.
+  intros Hinj WG WH. destruct (validator_exact (relabel f G) (relabel f H) G H WG WH) as (E1 & E2).
+  split; [|split].
+  - apply E1. rewrite (construct_equivariant f Hinj). apply relabel_isomorphic. exact Hinj.
+  - apply E2. rewrite (construct_equivariant f Hinj), (rc_equivariant f Hinj). apply relabel_isomorphic. exact Hinj.
+  - intros G' H' RG RH. apply (validator_exact (set_amap G') (set_amap H') G H WG WH).
+    apply (its_relabelled_isomorphic f); auto.
+Qed.
+
+(** a mapping that is not equivalent to the reference (non-isomorphic ITS / centre) is rejected; in particular the
+    mapping obtained by transposing the product-side numbers of two atoms x, y *)
+Definition transp (x y n : N) : N := if N.eqb n x then y else if N.eqb n y then x else n.
+Theorem validator_rejects_swap (x y : N) (G H : mgraph) : wf G -> wf H ->
+  (~ its_isomorphic (its_construct G (relabel (transp x y) H)) (its_construct G H) ->
+   smiles_check_its G (relabel (transp x y) H) G H = false) /\
+  (~ its_isomorphic (get_rc (its_construct G (relabel (transp x y) H))) (get_rc (its_construct G H)) ->
+   smiles_check_rc G (relabel (transp x y) H) G H = false).
+Proof.
+  intros WG WH. destruct (validator_exact G (relabel (transp x y) H) G H WG WH) as (E1 & E2).
+  split; intros Hn; apply not_true_iff_false; intros E; apply Hn; [apply E1|apply E2]; exact E.
+Qed.
+
+(* ------------------------------------------------------------------ non-vacuity / witnesses *)
+(** CH3-Br + OH-  >>  CH3-OH + Br-   (C = 70, Br = 3 + 0x4272 = 17013, O = 82; hydrogens implicit) *)
+Definition ex_G : mgraph :=
+  LG [(1%N, GN 70%N false 3 0 None 1); (2%N, GN 17013%N false 0 0 None 2); (7%N, GN 82%N false 1 (-1) None 7)] [(1%N, 2%N, 2%Z)].
+Definition ex_H : mgraph :=
+  LG [(1%N, GN 70%N false 3 0 None 1); (7%N, GN 82%N false 1 0 None 7); (2%N, GN 17013%N false 0 (-1) None 2)] [(1%N, 7%N, 2%Z)].
+(** the same with a proton released: a product atom without reactant partner, numbered 3 *)
+Definition ex_H3 : mgraph :=
+  LG [(1%N, GN 70%N false 3 0 None 1); (7%N, GN 82%N false 0 (-1) None 7); (2%N, GN 17013%N false 0 (-1) None 2); (3%N, GN EL_H false 0 1 None 3)]
+     [(1%N, 7%N, 2%Z)].
+Definition ex_order : list N := [1%N; 7%N; 2%N].
+
+Lemma wf_by_compute {A B} (g : lgraph A B) :
+  NoDup (node_ids g) ->
+  forallb (fun e : N * N * B => let '(a, b, _) := e in mem a (node_ids g) && mem b (node_ids g) && negb (N.eqb a b)) (gedges g) = true ->
+  (forall l1 a b x l2, gedges g = l1 ++ (a, b, x) :: l2 -> find_edge a b l1 = None /\ find_edge a b l2 = None) ->
+  wf g.
+Proof.
+  intros A1 A2 A3. split; [exact A1|split; [|exact A3]]. intros a b x I. rewrite forallb_forall in A2. specialize (A2 _ I). simpl in A2.
+  apply andb_prop in A2. destruct A2 as [A2 Hne]. apply andb_prop in A2. destruct A2 as [Ia Ib].
+  apply mem_spec in Ia. apply mem_spec in Ib. apply negb_true_iff in Hne. apply N.eqb_neq in Hne. auto.
+Qed.
+Lemma single_edge_wf3 {B} (a b : N) (x : B) : forall l1 a' b' x' l2, [(a, b, x)] = l1 ++ (a', b', x') :: l2 ->
+  find_edge a' b' l1 = None /\ find_edge a' b' l2 = None.
+Proof.
+  intros [|e l1] a' b' x' l2 E; simpl in E.
+  - inversion E; subst. split; reflexivity.
+  - inversion E as [[E1 E2]]. destruct l1; discriminate.
+Qed.
+Ltac nodup_N := repeat (constructor; [simpl; intuition discriminate|]); constructor.
+Lemma ex_G_parsed : parsed ex_G.
+Proof.
+  split; [|split].
+  - apply wf_by_compute; [unfold node_ids; simpl; nodup_N|reflexivity|apply single_edge_wf3].
+  - intros n a E. unfold label in E. simpl in E.
+    repeat (match type of E with context [N.eqb n ?k] => destruct (N.eqb_spec n k); [subst; inversion E; reflexivity|] end). discriminate.
+  - intros n I. simpl in I. intuition (subst; discriminate).
+Qed.
+Lemma ex_H_parsed : parsed ex_H.
+Proof.
+  split; [|split].
+  - apply wf_by_compute; [unfold node_ids; simpl; nodup_N|reflexivity|apply single_edge_wf3].
+  - intros n a E. unfold label in E. simpl in E.
+    repeat (match type of E with context [N.eqb n ?k] => destruct (N.eqb_spec n k); [subst; inversion E; reflexivity|] end). discriminate.
+  - intros n I. simpl in I. intuition (subst; discriminate).
+Qed.
+Lemma ex_H3_parsed : parsed ex_H3.
+Proof.
+  split; [|split].
+  - apply wf_by_compute; [unfold node_ids; simpl; nodup_N|reflexivity|apply single_edge_wf3].
+  - intros n a E. unfold label in E. simpl in E.
+    repeat (match type of E with context [N.eqb n ?k] => destruct (N.eqb_spec n k); [subst; inversion E; reflexivity|] end). discriminate.
+  - intros n I. simpl in I. intuition (subst; discriminate).
+Qed.
+Lemma ex_order_enumerates : enumerates ex_order ex_G.
+Proof. split; [unfold ex_order; nodup_N|]. intros n. unfold ex_order. simpl. intuition. Qed.
+
+(** the hypotheses of [canon_is_relabelling] are satisfiable, with and without a partner-less product atom, and the
+    result is what the implementation returns on this input (regress witness collision#wl) *)
+Definition ex_canon3 := canonicalise_with (canon_rebuild ex_order ex_G) ex_H3.
+Example ex_canon_hyps :
+  parsed ex_G /\ parsed ex_H3 /\ enumerates ex_order ex_G /\ relabelled_by (sigma_of ex_order) ex_G (canon_rebuild ex_order ex_G) /\
+  (exists s, In s (node_ids ex_G) /\ In s (node_ids ex_H3)).
+Proof.
+  split; [exact ex_G_parsed|]. split; [exact ex_H3_parsed|]. split; [exact ex_order_enumerates|].
+  split; [apply rebuild_relabelled; [apply ex_G_parsed|exact ex_order_enumerates]|]. exists 1%N. simpl. auto.
+Qed.
+Example ex_canon_value :
+  option_map (fun r => (node_ids (fst (fst r)), snd (fst r), node_ids (snd r))) ex_canon3
+  = Some ([1%N; 2%N; 3%N], [(1%N, 1%N); (3%N, 2%N); (2%N, 7%N)], [1%N; 2%N; 3%N; 4%N]).
+Proof. vm_compute. reflexivity. Qed.
+
+(** C09_unbalanced_collision: remap_graph with the shared pairs only (the code before repair 8092e28) merges the
+    bromide with the proton that kept its number 3 *)
+Definition ex_collision := remap_graph ex_H3 (aam_pairs (canon_rebuild ex_order ex_G) ex_H3).
+Theorem unbalanced_collision_refuted :
+  exists (Gc H : mgraph), NoDup (node_ids H) /\ amap_id H /\
+    match remap_graph H (aam_pairs Gc H) with
+    | Some Hc => (length (gnodes Hc) < length (gnodes H))%nat
+    | None => False
+    end.
+Proof.
+  exists (canon_rebuild ex_order ex_G), ex_H3. split; [apply ex_H3_parsed|]. split; [apply ex_H3_parsed|].
+  vm_compute. lia.
+Qed.
+
+(** validator: swapping the product-side numbers of Br (2) and O (7) gives a non-equivalent mapping: rejected;
+    the renumbering 1,2,7 -> 5,6,4 is accepted *)
+Definition ex_ren (n : N) : N := if N.eqb n 1 then 5%N else if N.eqb n 2 then 6%N else if N.eqb n 7 then 4%N else (n + 10)%N.
+Example ex_validator :
+  smiles_check_its ex_G (relabel (transp 2 7) ex_H) ex_G ex_H = false /\
+  smiles_check_rc ex_G (relabel (transp 2 7) ex_H) ex_G ex_H = false /\
+  smiles_check_its (relabel ex_ren ex_G) (relabel ex_ren ex_H) ex_G ex_H = true /\
+  smiles_check_rc (relabel ex_ren ex_G) (relabel ex_ren ex_H) ex_G ex_H = true.
+Proof. vm_compute. auto. Qed.
+Example ex_swap_not_isomorphic :
+  ~ its_isomorphic (its_construct ex_G (relabel (transp 2 7) ex_H)) (its_construct ex_G ex_H).
+Proof.
+  intros Hiso. apply (validator_exact ex_G (relabel (transp 2 7) ex_H) ex_G ex_H) in Hiso; [|apply ex_G_parsed|apply ex_H_parsed].
+  vm_compute in Hiso. discriminate.
+Qed.
+(** two equivalent centre atoms: O=C=O, both oxygens lose a bond order to carbon; swapping 2 and 3 is accepted *)
+Definition ex_S : mgraph :=
+  LG [(1%N, GN 70%N false 0 0 None 1); (2%N, GN 82%N false 0 0 None 2); (3%N, GN 82%N false 0 0 None 3)] [(1%N, 2%N, 4%Z); (1%N, 3%N, 4%Z)].
+Definition ex_S' : mgraph :=
+  LG [(1%N, GN 70%N false 0 0 None 1); (2%N, GN 82%N false 0 0 None 2); (3%N, GN 82%N false 0 0 None 3)] [(1%N, 2%N, 2%Z); (1%N, 3%N, 2%Z)].
+Example ex_equivalent_swap_accepted :
+  smiles_check_its ex_S (relabel (transp 2 3) ex_S') ex_S ex_S' = true /\ smiles_check_rc ex_S (relabel (transp 2 3) ex_S') ex_S ex_S' = true.
+Proof. vm_compute. auto. Qed.
